@@ -102,7 +102,50 @@ fn magnitude_checks(ctx: &Ctx) -> SubReport {
             }
         }
     });
+    // FLOAT operands: a step must not take time (or memory) growing with the magnitude; time is
+    // observed through the supervising watchdog (a stuck case is confirmed in a fresh process)
+    let fnames: Vec<String> = names.iter().filter(|n| footprint::get(n).map(|f| f.need.iter().any(|(c, _)| *c == "FLOAT")).unwrap_or(false)).cloned().collect();
+    let frep = par_map(ctx, "float-operand-magnitude", fnames.len() as u64, |ni, rep| {
+        let name = &fnames[ni as usize];
+        let fp = footprint::get(name).unwrap();
+        let need = fp.need.iter().find(|(c, _)| *c == "FLOAT").map(|(_, n)| *n).unwrap_or(0);
+        let base = base_state();
+        let budget = 64 * 1024 + 8 * state_bytes(&base);
+        for pos in 0..need.min(3) {
+            for v in [1e3f32, -1e3, 1e6, 1e9, -2.5e8, 3e12, 1e30, f32::MAX, f32::MIN, f32::INFINITY, f32::NAN, 1e-30] {
+                let mut s = base.clone();
+                s.floats[pos] = v;
+                if fp.size_at.is_some() {
+                    s.ints[fp.size_at.unwrap()] = 8;
+                }
+                rep.evaluations += 1;
+                crate::supervise::journal_instr("C15", name, &s);
+                let (mut st, _) = s.build();
+                let (r, bytes) = alloc::measure(|| guarded(|| with_machine(|m| m.step_named(&mut st, name))));
+                drop(st);
+                let case = json!({"instruction": name, "float_position": pos, "operand": fjson(v), "state": s.to_json(), "bytes_requested": bytes});
+                if let Err((l, m)) = r {
+                    rep.fail(ctx, Fail::new(format!("C15/{}/panic@{}", name, l), format!("FLOAT operand {} at position {}: {}", v, pos, m)), case);
+                    break;
+                }
+                if bytes > budget {
+                    rep.fail(ctx, Fail::new(format!("C15/alloc-by-operand/{}", name), format!("{} with FLOAT {} at position {} requested {} bytes (budget {})", name, v, pos, bytes, budget)), case);
+                    break;
+                }
+                if v.abs() >= 1e6 {
+                    let mut h = Fnv::new();
+                    h.str(name);
+                    h.u64(pos as u64);
+                    h.u64(v.to_bits() as u64);
+                    rep.nontrivial.insert(h.0);
+                }
+            }
+        }
+        crate::supervise::journal_clear();
+    });
+    rep.merge(frep);
     rep.exhaustive = true;
+    rep.notes.push("every registered instruction with a FLOAT operand x each FLOAT position x magnitudes up to f32::MAX / inf / NaN (hangs are detected by the supervising parent)".into());
     rep.notes.push("every registered instruction with an INTEGER operand x each of its INTEGER operand positions x magnitudes {-2^31, -1, 0, 2^4, 2^8, 2^12, 2^16, 2^18, 2^20, 2^22} on a fixed small state; bytes requested during the step measured by a counting allocator".into());
     rep
 }
